@@ -242,9 +242,9 @@ class MultiStream(Stream):
                             raise ValueError(f"cannot set volumetric flow by chemical group '{i}'")
             self._init_indexer(flow, phases, chemicals, phase_flows)
             flow = getattr(self, 'i' + name)
-            material_data = self._imol.data / factor
+            material_data = self._imol.data
             if total_flow: material_data *= total_flow / material_data.sum()
-            flow.data[:] = material_data
+            flow.data[:] = material_data / factor
         else:
             self._init_indexer(flow, phases, chemicals, phase_flows)
             if total_flow: self._imol.data *= total_flow / self.F_mol
